@@ -42,10 +42,31 @@ Inductive plan_arg := ArgDefault | ArgBad | ArgNew | ArgFull | ArgPct (p : N).
 Record test_opts := { force_scrub_even : bool; force_scrub_at : N }.
 Definition no_test_opts := {| force_scrub_even := false; force_scrub_at := 0 |}.
 
-(* snapraid.c:653-677: `-p` accepts bad/new/full or a decimal 0..100, `-o` a decimal 0..1000.
-   (digits already converted; None = "Invalid plan/percentage" / "Invalid number of days") *)
-Definition parse_plan_number (v : N) : option plan_arg := if (v <=? 100)%N then Some (ArgPct v) else None.
-Definition parse_older_number (v : N) : option N := if (v <=? 1000)%N then Some v else None.
+(* snapraid.c:653-677: `-p` accepts bad/new/full or a decimal number, `-o` a decimal number.  The number is read with
+   strtoul (unsigned long, saturating) and stored in an `int` before the range test `plan > 100` / `olderthan > 1000`,
+   so a value whose low 32 bits are a negative int passes the test and is then read as one of the SCRUB_* constants
+   (state.h:265-269) or as "no value".  v = the decimal value of the digits; None = "Invalid plan/percentage" /
+   "Invalid number of days". *)
+Definition int_of_ulong (v : N) : Z :=
+  let u := if (v <? 18446744073709551616)%N then v else 18446744073709551615%N in    (* ULONG_MAX on overflow *)
+  let w := (u mod 4294967296)%N in
+  if (w <? 2147483648)%N then Z.of_N w else (Z.of_N w - 4294967296)%Z.
+
+Definition parse_plan_number (v : N) : option plan_arg :=
+  let p := int_of_ulong v in
+  if (p >? 100)%Z then None
+  else if (0 <=? p)%Z then Some (ArgPct (Z.to_N p))
+  else if (p =? -2)%Z then Some ArgBad
+  else if (p =? -3)%Z then Some ArgNew
+  else if (p =? -4)%Z then Some ArgFull
+  else Some ArgDefault.                       (* any other negative plan: `plan >= 0` is false, the default quota *)
+
+(* Some None = accepted but treated as if -o was not given (olderthan < 0) *)
+Definition parse_older_number (v : N) : option (option N) :=
+  let p := int_of_ulong v in
+  if (p >? 1000)%Z then None
+  else if (0 <=? p)%Z then Some (Some (Z.to_N p))
+  else Some None.
 
 (* ------------------------------------------------------------------------------------------------ *)
 (* scrub.c:722-732  md(a, b, c) = a * b / c rounded up, uint32 arguments, uint64 intermediate          *)
